@@ -1,19 +1,16 @@
 SPECIFICATION FairSpec
 CONSTANTS
   W = {"w1", "w2"}
-  MaxBody = 1
+  MaxBody = 0
   Faults = 1
   Stale = {1}
-  DirMissing = TRUE
+  DirMissing = FALSE
   AnySplit = TRUE
   KeepHist = FALSE
 INVARIANT DestOldOrNew
 INVARIANT FailedIsClean
 INVARIANT DoneIsNew
 INVARIANT TempsDisjoint
-INVARIANT DeadIsIntact
-INVARIANT StaleKept
-PROPERTY OthersUntouched
 PROPERTY Termination
 PROPERTY Settled
 CHECK_DEADLOCK FALSE
